@@ -6,14 +6,24 @@
    The reader is line based.  The text is cut at every newline character
    ([split_on]); the header lines are checked literally ("version 3.0", an
    empty line, "qubit[n] q", then either an empty line or "bit[m] b"); in the
-   body empty lines are skipped and every other line is classified by
-   [read_line]:
+   body ([read_body]) empty lines are skipped and every other line is
+   classified by [read_line]:
 
      name(p1, p2) q[i], q[j]      RGate name [p1; p2] [i; j]
      name q[i]                    RGate name [] [i]          (also reset)
      b[k] = name q[i]             RAssign k name i           (measure)
      /* text */                   RComment text              (text without "*/")
      anything else                RRaw line
+
+   A block comment may span several lines: a line "/* x" whose rest x has no
+   terminator "*/" opens a comment; the following lines, EMPTY ONES INCLUDED,
+   are accumulated (joined by the newline character) up to the first line
+   containing "*/"; if that line is "u */" with no earlier "*/", the result is
+   the single RComment (x NL ... NL u); otherwise (something follows the
+   terminator, or no blank precedes it) the whole block is kept as one RRaw; a
+   comment still open at the end of the text is one RRaw.  (The first "*/"
+   after the opening ends the comment, as in the grammar; a "*/" cannot
+   straddle a newline, so looking line by line finds the first one.)
 
    A parameter is an integer ('-'? DIGIT+, [RInt]), a float literal of
    Theory/Lexer.v with an optional unary minus ([RNumLit], the literal text is
@@ -233,6 +243,21 @@ Definition read_comment (l : string) : option rline :=
   | None => None
   end.
 
+(* s = t ++ " */" where t has no comment terminator : t *)
+Definition close_comment (s : string) : option string :=
+  match until_close s with
+  | Some t => if has_close t then None else Some t
+  | None => None
+  end.
+
+(* the line is "/* " r and r has no comment terminator: a block comment is
+   opened and not closed on this line : r *)
+Definition opens_comment (l : string) : option string :=
+  match strip_prefix "/* " l with
+  | Some r => if has_close r then None else Some r
+  | None => None
+  end.
+
 Definition first_some {A : Type} (a b : option A) : option A :=
   match a with Some _ => a | None => b end.
 
@@ -265,6 +290,30 @@ Definition read_version (l : string) : option string :=
 
 Definition body_lines (ls : list string) : list string := filter nonempty ls.
 
+(* the lines of the body, read with [rl]; [acc] is the text of the block
+   comment that is open (None: no comment is open).  Outside a comment empty
+   lines are skipped; inside, every line belongs to the comment. *)
+Fixpoint read_body (rl : string -> rline) (acc : option string) (ls : list string) : list rline :=
+  match ls with
+  | [] => match acc with Some a => [RRaw ("/* " ++ a)] | None => [] end
+  | l :: ls' =>
+      match acc with
+      | None =>
+          if is_empty l then read_body rl None ls'
+          else match opens_comment l with
+               | Some r => read_body rl (Some r) ls'
+               | None => rl l :: read_body rl None ls'
+               end
+      | Some a =>
+          if has_close l then
+            match close_comment l with
+            | Some u => RComment (a ++ String nl_char u)
+            | None => RRaw ("/* " ++ a ++ String nl_char l)
+            end :: read_body rl None ls'
+          else read_body rl (Some (a ++ String nl_char l)) ls'
+      end
+  end.
+
 Definition read3 (text : string) : option rprogram :=
   match split_on nl_char text with
   | v :: e :: q :: rest =>
@@ -276,11 +325,11 @@ Definition read3 (text : string) : option rprogram :=
             | b :: rest' =>
                 if is_empty b then
                   Some {| r_version := ver; r_nq := n; r_nb := 0;
-                          r_lines := map read_line3 (body_lines rest') |}
+                          r_lines := read_body read_line3 None rest' |}
                 else
                   match read_decl "bit[" "] b" b with
                   | Some m => Some {| r_version := ver; r_nq := n; r_nb := m;
-                                      r_lines := map read_line3 (body_lines rest') |}
+                                      r_lines := read_body read_line3 None rest' |}
                   | None => None
                   end
             end
@@ -344,9 +393,9 @@ Definition read1 (text : string) : option (Z * list rline) :=
             | [e] => if is_empty e then Some (0%Z, []) else None
             | e :: q :: rest' =>
                 if is_empty e then
-                  if is_empty q then Some (0%Z, map read_line1 (body_lines rest'))
+                  if is_empty q then Some (0%Z, read_body read_line1 None rest')
                   else match read_decl "qubits " "" q with
-                       | Some n => Some (n, map read_line1 (body_lines rest'))
+                       | Some n => Some (n, read_body read_line1 None rest')
                        | None => None
                        end
                 else None
